@@ -1,0 +1,6 @@
+//go:build !verif
+
+package proxycore
+
+// verifAt is a no-op unless the package is built with the `verif` build tag (see verif_on.go).
+func verifAt(string, ...interface{}) {}
